@@ -152,6 +152,17 @@ def h_marker_stage_faults(ctx, case):
         ctx.check(not os.path.exists(res['out']),
                   'no file at the requested output location after a '
                   'failed worker')
+        if res.get('mask_stage_failed') and os.path.exists(res['mask']):
+            # the failure happened while the mask was being written
+            import h5py
+            try:
+                with h5py.File(res['mask'], 'r') as f:
+                    complete = all(k in f for k in ('indptr', 'indices',
+                                                    'data'))
+            except Exception:
+                complete = False
+            ctx.check(not complete, 'no complete-looking p-value mask at '
+                      'the requested location after a failed mask worker')
     else:
         ctx.reach('all workers ok')
         ctx.check(res['raised'] is None, 'no worker failed => success: '
@@ -216,8 +227,11 @@ HARNESSES = [
             expect_reach=['worker failed', 'all workers ok'], split=16),
     Harness('reference_marker_worker_faults', h_marker_stage_faults,
             setup=_rm_setup,
-            cases=[{'vary': [], 'K': 0, 'fixed': True}],
-            thorough_cases=[{'vary': ['c0'], 'K': 1, 'fixed': True}],
+            cases=[{'vary': [], 'K': 0, 'fixed': True},
+                   {'vary': [], 'K': 0, 'fixed': True, 'route': 'mask'}],
+            thorough_cases=[{'vary': ['c0'], 'K': 1, 'fixed': True},
+                            {'vary': ['c0'], 'K': 1, 'fixed': True,
+                             'route': 'mask'}],
             funcs=['markers.find_markers_for_all_taxonomy_pairs',
                    'create_sparse_by_pair_marker_file',
                    '_find_markers_worker', '_merge_sparse_by_pair_files',
